@@ -1974,3 +1974,34 @@ pub fn run(ctx: &Ctx) {
     ctx.prop("msg_bytes", ctx.n(400_000, 8_000_000), bytes_case_strategy, |c: &BytesCase| check_bytes_case(w, c));
     ctx.prop("obj_words", ctx.n(250_000, 5_000_000), words_case_strategy, |c: &WordsCase| check_words_case(w, c));
 }
+
+fn fuzz_world() -> &'static World {
+    static W: std::sync::OnceLock<World> = std::sync::OnceLock::new();
+    W.get_or_init(|| {
+        let ctx = Ctx::new("C14", crate::Tier::Quick, 0, crate::Mode::Run);
+        load_world(&ctx)
+    })
+}
+
+/// Entry point for fuzz targets / raw replays: byte 0 selects protocol and entry point
+/// (system/game/connless messages, or snapshot object words), the rest is the input.
+pub fn fuzz_bytes(data: &[u8]) -> Result<(), String> {
+    if data.is_empty() {
+        return Ok(());
+    }
+    let w = fuzz_world();
+    let proto = (data[0] & 3) as usize;
+    let sel = (data[0] >> 2) & 3;
+    let rest = &data[1..];
+    if sel < 3 {
+        let entry = [Sec::System, Sec::Game, Sec::Connless][sel as usize];
+        check_msg_bytes(w, proto, entry, rest).map(|_| ())
+    } else {
+        if rest.len() < 2 {
+            return Ok(());
+        }
+        let ty = u16::from_le_bytes([rest[0], rest[1]]);
+        let words: Vec<i32> = rest[2..].chunks_exact(4).map(|c| i32::from_le_bytes([c[0], c[1], c[2], c[3]])).collect();
+        check_obj_words(w, proto, &Id::Ord(ty as i32), &words).map(|_| ())
+    }
+}
